@@ -128,7 +128,6 @@ bool prop(Tape &t, Report &R) {
   }
   for (auto &l : s.labels) R.classify(l);
 
-  Circuit c = s.build();
   std::vector<int> stages;
   switch (flow) {
     case 0: stages = {kGlobal}; break;
@@ -140,6 +139,8 @@ bool prop(Tape &t, Report &R) {
   }
   bool observe = t.flip(1, 3);
   int reached = 0, threw = 0;
+  auto runFlow = [&](const CircuitSpec &s, const ColoquinteParameters &params) -> bool {
+  Circuit c = s.build();
   for (int st : stages) {
     long long sink = 0;
     PlacementCallback cb = [&](PlacementStep) { sink += c.hpwl(); };
@@ -154,6 +155,26 @@ bool prop(Tape &t, Report &R) {
       (void)c.report();
       c.check();
     } catch (const std::exception &) {
+    }
+  }
+  return true;
+  };
+  if (!runFlow(s, params)) return false;
+  // occasionally also a large companion instance (decided at the very end of the tape)
+  uint32_t tail = t.next();
+  if (tail % 32 == 1) {
+    if (usesGlobal) o.anchorPct = 100;
+    CircuitSpec big = genLargeCircuit(tail, o, 250);
+    bool positiveBig = false;
+    for (auto &c : big.cells)
+      if (!c.fixed && (long long)c.w * c.h > 0) positiveBig = true;
+    if (positiveBig && (!usesGlobal || unanchoredComponents(big).empty())) {
+      R.classify(big.nbMovable() >= 100 ? "large:100+cells" : "large:<100cells");
+      ColoquinteParameters p2 = params;
+      p2.global.maxNbSteps = std::min(p2.global.maxNbSteps, 10);
+      int r0 = reached, t0 = threw;
+      if (!runFlow(big, p2)) return false;
+      reached = r0, threw = t0;
     }
   }
   R.classify(threw ? "outcome:some-stage-threw" : "outcome:all-returned");
